@@ -133,6 +133,8 @@ class KaniResult:
                 st["playback"] = pb.group(1)
             if "unwinding assertion" in " ".join(st["failed"]):
                 st["result"] = "UNWIND"
+            if "CBMC timed out" in b or ("CBMC failed" in b and not st["failed"]):
+                st["result"] = "TIMEOUT"
             self.status[short] = st
         self.compile_error = None
         if not self.status and hs:
